@@ -9,7 +9,7 @@ ROOT = os.path.dirname(os.path.dirname(os.path.abspath(__file__)))
 CHECKS = {
  "C01": ("exploration",
          "bounded exhaustive enumeration of strings and token sequences over the full token alphabet through both parse entry points, with a parser progress monitor and process-level death/stall pinpointing",
-         "Every string of <= 5 (thorough 6) atoms over five critical alphabets, every sequence of <= 3 (thorough 4) tokens over the token alphabet derived from SyntaxKind at run time (92 lexer-producible kinds plus text-dependent and malformed variants; spaced and tight renderings), thorough also every 5-token sequence at parser level (6.6e9), and 46 scaling families up to nesting 256 / 64 KiB are pushed through SourceFile::parse and SourceFile::parse_check_lex under catch_unwind in worker processes. A panic, failed assertion, overflow (strict profile), a parser loop that stops consuming (hook), a dead or stalled worker, or work above a frozen constant per token is a violation. Exhaustive within the bounds, so every grammar loop meets every token kind as the offending token by construction.",
+         "Every string of <= 5 (thorough 6) atoms over seven 14-symbol alphabets of critical atoms, every sequence of <= 3 (thorough 4) tokens over the token alphabet derived from SyntaxKind at run time (92 lexer-producible kinds plus text-dependent and malformed variants; rendered with blanks, tightly, and with an empty comment between all lexemes), thorough also every 5-token sequence at parser level (6.5e9), every model leaf statement under single-token faults (each token deleted, duplicated, replaced by each of 10 offenders), a long program cut after every token count, and 46 scaling families up to nesting 256 / 64 KiB are pushed through SourceFile::parse and SourceFile::parse_check_lex under catch_unwind in worker processes. A panic, failed assertion, overflow (strict profile), a parser loop that stops consuming (hook), a dead or stalled worker, or work above a frozen constant per token is a violation. Exhaustive within the bounds, so every grammar loop meets every token kind as the offending token by construction.",
          "Bounds: see evidence (lengths, nesting 256, 64 KiB). Strict build profile (debug assertions, overflow checks). Hook oq3_verif counts look-aheads/events. Four genuine defects found this way were repaired by fix: commits (known_findings.jsonl, fixed entries).",
          "DESIGN.md section 7, C01"),
  "C02": ("exploration",
@@ -19,13 +19,13 @@ CHECKS = {
          "DESIGN.md section 7, C02"),
  "C03": ("exploration",
          "bounded exhaustive enumeration of syntactically clean programs (token soup, wider grammar in every context, single semantic faults over all sites) through the full analysis in isolated worker processes",
-         "Every token sequence of <= 3 (thorough 4: 7e7) tokens that the implementation parses without diagnostics, ~520 statements of the wider grammar (all operators, literal kinds, blocks, box, arrays, extern, defcal, cal, old-style declarations, hardware qubits, ill-typed and ill-scoped uses) alone and inside every one of 16 contexts (thorough: two levels), every leaf template in every context with and without its declarations, and single semantic faults exhaustive over sites (each prelude declaration deleted, duplicated, retyped to each of 10 types, turned into a qubit, made const; gate and subroutine calls with wrong arity under each modifier) are analysed; a panic, a dead or stalled worker, or a scope stack not back at the global scope is a violation.",
-         "Which programs are syntactically clean is decided by the implementation. 24 panic sites are recorded as known findings keyed by panic message + source text of the panicking line + trigger token; five were repaired by fix: commits. Hook oq3_verif gives the scope depth.",
+         "Every token sequence of <= 3 (thorough 4: 7e7) tokens that the implementation parses without diagnostics, ~460 statements of the wider grammar (all operators, literal kinds, blocks, box, arrays, extern, defcal, cal, old-style declarations, hardware qubits, version statements, ill-typed and ill-scoped uses) alone, inside every one of 16 contexts (thorough: two levels) and in every ordered pair after the prelude, every leaf template and every grid leaf (statement form x operand form, qualifier x type, assignment operator x target) in every context with and without its declarations, and single semantic faults exhaustive over sites (each prelude declaration deleted, duplicated, retyped to each of 10 types, turned into a qubit, made const; gate and subroutine calls with wrong arity under each modifier) are analysed; a panic, a dead or stalled worker, or a scope stack not back at the global scope is a violation.",
+         "Which programs are syntactically clean is decided by the implementation. The panic sites of unsupported constructs are recorded as known findings keyed by panic message + source text of the panicking line + trigger token (DESIGN.md 10.4); those repaired by fix: commits are in 10.3. Hook oq3_verif gives the scope depth.",
          "DESIGN.md section 7, C03"),
  "C04": ("exploration",
          "bounded exhaustive enumeration of derivations of a reference grammar, each under every printing, through both parse entry points",
-         "All spines of <= 2 (thorough 3, and 4-5 over the reduced context set) compound-statement contexts (16 contexts: each body of if/else/while/for/case/default/gate/def as block or single statement) around ~65 leaf statement templates, all sequences of 2 (thorough 3) statements, all two- and three-operator expression trees over 19 binary and 3 unary operators in 12 expression positions, printed with minimal, full and redundant parentheses and 7 uniform separator flavours; any diagnostic of SourceFile::parse or parse_check_lex is a violation. Every context x construct pair is present by construction.",
-         "The claimed grammar is listed in DESIGN.md 4.4. Four genuine rejections are recorded as known findings keyed by message + construct; two were repaired by fix: commits.",
+         "All spines of <= 2 (thorough 3, and 4-5 over the reduced context set) compound-statement contexts (16 contexts: each body of if/else/while/for/case/default/gate/def as block or single statement) around ~65 leaf statement templates and (to depth 1, thorough 2) around 268 grid leaves (17 quantum statement forms x 8 operand forms, 6 declaration qualifiers x 16 types, 12 assignment operators x 3 target forms), all sequences of 2 (thorough 3) statements, all two- and three-operator expression trees over 19 binary and 3 unary operators in 12 expression positions, printed with minimal, full and redundant parentheses and 7 uniform separator flavours; plus 54 statement texts of constructs outside the model grammar that the parser supports (arrays, extern, calibration, old-style registers, durationof, alias concatenation, built-in calls) in 5 positions x 6 separator flavours; any diagnostic of SourceFile::parse or parse_check_lex is a violation. Every context x construct pair is present by construction.",
+         "The model grammar is listed in DESIGN.md 4.4; arrow measurement and box statements, which the parser does not accept, are outside the claim. Genuine rejections are recorded as known findings keyed by message + construct (DESIGN.md 10.4); repaired ones are in 10.3.",
          "DESIGN.md section 7, C04"),
  "C05": ("exploration",
          "bounded exhaustive enumeration of model programs; S-expression read through the public typed accessors compared with the model's derivation",
@@ -34,22 +34,22 @@ CHECKS = {
          "DESIGN.md section 7, C05"),
  "C06": ("exploration",
          "bounded exhaustive enumeration of supported model programs; node-by-node comparison of the graph skeleton (through public accessors and the final symbol table) with the skeleton predicted from the model",
-         "Every supported leaf template inside spines of <= 2 (thorough 3, and 4-5 over the reduced context set) contexts after its declarations, all sequences of <= 2 (thorough 3) supported statements with annotation lines, all two-operator trees and unary/postfix mixes over the 13 supported binary operators in 6 expression positions: the graph's statement kinds, nesting, order, branch/body/case/default roles, operand, argument, qubit, index and modifier order, operator identity, literal class and value, symbol names, annotations and pragma text must equal the model's.",
+         "Every supported leaf template inside spines of <= 3 (thorough 4-5 over the reduced context set) contexts and every supported grid leaf inside <= 1 (thorough 2) contexts after its declarations, all sequences of <= 2 (thorough 3) supported statements with annotation lines, all two-operator trees and unary/postfix mixes over the 13 supported binary operators in 6 expression positions: the graph's statement kinds, nesting, order, branch/body/case/default roles, operand, argument, qubit, index and modifier order, operator identity, literal class and value, symbol names, annotations and pragma text must equal the model's. For 'includes expanded in place' the file-system configurations of C18 with one directory and three files run under this check too (graph with real included files, annotated and nested includes, equals the graph of the textually inlined program).",
          "Casts are transparent and declared types are not compared. Programs not analysed (syntax diagnostics, analyser panics) are skipped and counted. Three findings recorded (`**` stored as `++`, `let` in bodies, cast-initial statement).",
          "DESIGN.md section 7, C06"),
  "C07": ("model_checking",
          "exhaustive exploration of scope/declaration/use operation histories rendered as programs and executed by the real analyser, compared reference by reference with a reference scope stack",
-         "All well-formed histories of <= 5 (thorough 6) operations over {declare int/const/qubit x, use x, assign x, gate-call x, open if/else/while/for x/case/default/gate(x)/def(x), close} for three two-name pools (user names; pi and the library gate h after include; the built-in U) are rendered as programs; the graph is walked in source order and every symbol reference is compared with the reference scope machine: resolved iff visible, same symbol iff same declaration, symbol name equals the identifier, unresolved uses marked MissingBinding, typed Undefined and reported exactly once on the identifier, duplicates marked AlreadyBound and reported exactly once with the name, scope stack back at depth 1. Reports reference states, transitions and traces; every trace runs on the implementation.",
+         "All well-formed histories of <= 5 (thorough 6) operations over {declare int/const/qubit x, use x, assign x, gate-call x, open if/else/while/for x/case/default/gate(x)/def(x), close} for four two-name pools (user names; pi and the library gate h after include; the built-in U; non-ASCII names) are rendered as programs; the graph is walked in source order and every symbol reference is compared with the reference scope machine: resolved iff visible, same symbol iff same declaration, symbol name equals the identifier, unresolved uses marked MissingBinding, typed Undefined and reported exactly once on the identifier, duplicates marked AlreadyBound and reported exactly once with the name, scope stack back at depth 1. Reports reference states, transitions and traces; every trace runs on the implementation.",
          "Readings where the statement is silent are listed in the evidence assumptions. Hook oq3_verif for the depth.",
          "DESIGN.md section 7, C07"),
  "C08": ("exploration",
          "exhaustive target x value-form decision table for declarations and assignments; typing rules checked on every expression node of every resulting graph",
-         "Every scalar type spelling of the tier (16 quick, 26 thorough; const and non-const targets) x every value form (11 literal forms, variable / const variable / explicit cast / subroutine call of every type, measurement of qubit and register, arithmetic over every ordered pair of numeric operand types x 4 operators, unary minus) for declarations with initializer and for assignments. On every expression node: identifier type = symbol type, literal type = its class marked const, cast type = target, measurement type = bit shape of the operand, arithmetic node type = the library's common type with both operands of that type or cast to it. On the statement: value type equals the target up to const-ness (directly or via a cast to exactly the target) or a type diagnostic sits on it; conversions in the must-diagnose class (kind down the tower, negative literal to unsigned, to/from bit, bool, duration, angle of another kind, narrowing of a non-constant) carry a diagnostic.",
+         "Every scalar type spelling of the tier (26 quick, 34 thorough; const and non-const targets) x every value form (11 literal forms, variable / const variable / explicit cast / subroutine call of every type, measurement of qubit and register, arithmetic over every ordered pair of numeric operand types x 4 operators, unary minus) for declarations with initializer and for assignments. On every expression node: identifier type = symbol type, literal type = its class marked const, cast type = target, measurement type = bit shape of the operand, arithmetic node type = the library's common type with both operands of that type or cast to it. On the statement: value type equals the target up to const-ness (directly or via a cast to exactly the target) or a type diagnostic sits on it; conversions in the must-diagnose class (kind down the tower, negative literal to unsigned, to/from bit, bool, duration, angle of another kind, narrowing of a non-constant) carry a diagnostic.",
          "Whether the common type is a correct join is C20. Over-diagnosis is not a violation. Two defects were repaired by fix: commits; one (integer imaginary literal typed int) is recorded.",
          "DESIGN.md section 7, C08"),
  "C09": ("exploration",
          "exhaustive enumeration of a declaration-form x type x width x scope table; recorded symbol types compared with the declared ones computed by the harness",
-         "Plain, const, input, output, loop-variable and subroutine-parameter declarations of 12 scalar type spellings with every width of the tier's set (thorough: 1..1024 and 2^k, 2^k+-1 up to 2^32-1), literal and through const identifiers of 6 integer types, in 8 scope kinds; qubit registers; out-of-range, negative, float, boolean, non-constant, input, loop-variable and undeclared designators (a diagnostic is required and the width must not be another number); every gate signature 0-4 x 1-4 with parameter and qubit types and the gates() listing with and without the standard library; every subroutine signature 0-4 parameters x 13 return types with DefStmt::return_type.",
+         "Plain, const, input, output, loop-variable and subroutine-parameter declarations of 12 scalar type spellings with every width of the tier's set (1..1024, thorough 1..4096, and 2^k, 2^k+-1 up to 2^32-1), literal and through const identifiers of 6 integer types, in 8 scope kinds; qubit registers; out-of-range, negative, float, boolean, non-constant, input, loop-variable and undeclared designators (a diagnostic is required and the width must not be another number); every gate signature 0-4 x 1-4 with parameter and qubit types and the gates() listing with and without the standard library; every subroutine signature 0-4 parameters x 13 return types with DefStmt::return_type.",
          "Programs on which the analyser panics are skipped and counted (C03). Const-ness of a recorded return type is not compared. Three defects (truncated width, silent non-constant width, const of the literal's own type as width) were repaired by fix: commits.",
          "DESIGN.md section 7, C09"),
  "C10": ("exploration",
@@ -59,47 +59,47 @@ CHECKS = {
          "DESIGN.md section 7, C10"),
  "C11": ("exploration",
          "bounded exhaustive splicing of malformed lexemes at every position of every short token sequence; gating relations checked on every token sequence through the full pipeline",
-         "35 malformed spellings in 8 classes (unterminated strings, bit strings and comments, base prefixes without digits, exponents without digits, malformed version headers, identifiers with forbidden characters) are spliced at every gap of every sequence of <= 2 tokens over the full token alphabet; the lexical diagnostic must sit on the spliced lexeme. Every sequence of <= 3 tokens (with malformed variants) goes through parse_check_lex (tree iff no lexical diagnostic; diagnostics all lexical or all syntactic) and through parse_source_string (any_syntax_errors iff a syntax diagnostic; then empty program and no semantic diagnostics; otherwise analysis ran).",
+         "About 600 malformed spellings generated from the reference definition of each class (unterminated strings and bit strings: quote + every body of <= 2 atoms over 9 atoms incl. escapes; unterminated nested block comments; base prefixes without digits; 7 mantissas x e/E x sign x underscores without exponent digits; malformed version headers; identifiers with a forbidden character) are spliced at every gap of every sequence of <= 2 tokens over the full token alphabet, and the spellings one atom deeper (thorough two) alone and after one token; the lexical diagnostic must sit on the spliced lexeme. Every sequence of <= 3 tokens (with malformed variants) goes through parse_check_lex (tree iff no lexical diagnostic; diagnostics all lexical or all syntactic) and through parse_source_string (any_syntax_errors iff a syntax diagnostic; then empty program and no semantic diagnostics; otherwise analysis ran).",
          "Pipeline cases on which the analyser panics are skipped here and counted (they are C03's). Includes of real files with faults are exercised by C18.",
          "DESIGN.md section 7, C11"),
  "C12": ("exploration",
          "bounded exhaustive enumeration of inputs; span validity and error-node/diagnostic correspondence on every one",
-         "On every input of the C01 text-level spaces (with non-ASCII lexemes) every diagnostic of both entry points must have start <= end <= len on character boundaries, and a tree containing an ERROR node or token must come with at least one diagnostic.",
-         "Syntax diagnostics only in this round; semantic diagnostics' ranges are added with the semantic checks.",
+         "On every input of the C01 text-level spaces (with non-ASCII lexemes) every diagnostic of both entry points must have start <= end <= len on character boundaries, and a tree containing an ERROR node or token must come with at least one diagnostic. Semantic diagnostics: on every scope history of C07's user and Unicode pools, every rule site of C13 and every single-fault program (each with a non-ASCII comment and non-ASCII declarations in front) every semantic diagnostic's range must be in bounds, on character boundaries and equal to the range of a node of the file's tree.",
+         "Programs on which the analyser panics are skipped and counted (C03).",
          "DESIGN.md section 7, C12"),
  "C13": ("exploration",
          "exhaustive rule x site x arity decision table and all pairs of rule representatives; exact multiset of rule diagnostics per site",
-         "Every gate of the standard library, U and 20 user gates called with 0..5 parameters x 1..5 operands unmodified, inv@ and pow(2)@ (thorough: all 30 x 3 arity combinations per gate); calls of non-gates and undeclared names; 14 non-quantum symbols as gate / reset / measure / barrier operand, plain and indexed; 12 binary operators with a qubit, register or hardware qubit on either or both sides; subroutines with 0-4 parameters called with 0..5 arguments in 3 positions; assignment to const and non-const symbols; qubit, gate and subroutine declarations in 9 scope kinds; return at global scope and in subroutines; delay designators; and all 256 ordered pairs of 16 rule representatives. On each site the multiset of rule diagnostics must be exactly the predicted one, located inside the site, with no rule diagnostic elsewhere.",
+         "Every gate of the standard library, U and 20 user gates called with 0..5 parameters x 1..5 operands unmodified, inv@ and pow(2)@ (all 30 x 3 arity combinations per gate); calls of non-gates and undeclared names; 14 non-quantum symbols as gate / reset / measure / barrier operand, plain and indexed; 12 binary operators with a qubit, register or hardware qubit on either or both sides; subroutines with 0-4 parameters called with 0..5 arguments in 3 positions; assignment to const and non-const symbols; qubit, gate and subroutine declarations in 9 scope kinds; return at global scope and in subroutines; delay designators; and all 256 ordered pairs of 16 rule representatives. On each site the multiset of rule diagnostics must be exactly the predicted one, located inside the site, with no rule diagnostic elsewhere.",
          "ctrl/negctrl arity is not judged. Sites are type-correct otherwise, so IncompatibleTypesError can only come from the operand/operator rules.",
          "DESIGN.md section 7, C13"),
  "C14": ("exploration",
          "bounded exhaustive enumeration of input strings over critical alphabets, invariant oracle on every one",
-         "Every string of at most 5 (thorough: 6-7) symbols over five 14-symbol alphabets of lexically critical atoms is lexed by the real lexer and by LexedStr; on each the partition invariants (non-zero lengths, character boundaries, suffix offsets, lengths summing to the input, strictly increasing offsets, slicing never fails, two runs equal) are checked. Exhaustive within the bound, so every lexer shortcut reachable with <= 7 critical atoms is hit by construction rather than by luck.",
+         "Every string of at most 5 (thorough: 6-7) symbols over seven 14-symbol alphabets of lexically critical atoms is lexed by the real lexer and by LexedStr; on each the partition invariants (non-zero lengths, character boundaries, suffix offsets, lengths summing to the input, strictly increasing offsets, slicing never fails, two runs equal) are checked. Exhaustive within the bound, so every lexer shortcut reachable with <= 7 critical atoms is hit by construction rather than by luck.",
          "Nothing is claimed for strings beyond the bound or characters outside the alphabets. Trusted: rustc, the harness.",
          "DESIGN.md section 7, C14"),
  "C15": ("exploration",
-         "exhaustive enumeration of all ordered pairs (thorough: triples) of lexeme instances times separator flavours against a hand-written expected-kind table",
-         "About 190 lexeme instances (every keyword and type name, punctuation, integer/float spellings, number+unit, identifiers incl. Unicode and keyword-prefixed, hardware qubits, bit strings, strings, comments, pragma/annotation lines, version header) in all ordered pairs x 7 separators and alone with leading/trailing trivia (thorough: all triples); the non-trivia token table must be exactly the expected (kind, text) list with no lexical error, hence identical across separators.",
-         "Expected kinds are a hand-written table (keywords by naming convention). must_separate is conservative. Bare OPENQASM / pragma are excluded (header / line forms only).",
+         "exhaustive enumeration of all ordered pairs and triples of lexeme instances times separator flavours against a hand-written expected-kind table",
+         "About 190 lexeme instances (every keyword and type name, punctuation, integer/float spellings, number+unit, identifiers incl. Unicode and keyword-prefixed, hardware qubits, bit strings, strings, comments, pragma/annotation lines, version header) in all ordered triples, and those plus every number spelling x every unit (glued and with a blank; ~520 instances) in all ordered pairs x 7 separators and alone with leading/trailing trivia; the non-trivia token table must be exactly the expected (kind, text) list with no lexical error, hence identical across separators.",
+         "Expected kinds are a hand-written table (keywords by naming convention). must_separate is conservative. Bare OPENQASM / pragma are excluded (header / line forms only). One finding recorded (upper-case base prefix glued to a unit).",
          "DESIGN.md section 7, C15"),
  "C16": ("exploration",
          "exhaustive enumeration of all sequences of error-free statements in every block context; differential comparison of the concatenation's statement list with the parts' own parses",
-         "A pool of ~95 statement texts (every leaf template, compounds with block and single-statement bodies, empty statement, pragma/annotation lines, definitions); those that parse cleanly alone (decided by the implementation) are concatenated in all sequences of length <= 2 in each of 9 contexts (file, if, else, while, for, case, default, gate, def) and of length 3 at top level (thorough: in every context); the concatenation must have no diagnostic and its statement list must equal the concatenation of the parts' lists by kind, token texts and preorder kind sequence.",
-         "Differential oracle, no expected value written by hand. One defect (assignment swallowing the next statement) was repaired by a fix: commit; two are recorded (empty statement after an item; `let` in blocks).",
+         "A pool of ~115 statement texts (every leaf template, compounds with block and single-statement bodies, anonymous blocks, statements starting with every kind of expression-start token, empty statement, pragma/annotation lines, definitions); those that parse cleanly alone (decided by the implementation) are concatenated in all sequences of length <= 3 in each of 9 contexts (file, if, else, while, for, case, default, gate, def; thorough: length 4 at top level and in if), and N copies of each followed by each of 6 victim statements for N around every power of two up to 1024 (thorough 4096) in three contexts; the concatenation must have no diagnostic and its statement list must equal the concatenation of the parts' lists by kind, token texts and preorder kind sequence.",
+         "Differential oracle, no expected value written by hand. One defect (assignment swallowing the next statement) was repaired by a fix: commit; four are recorded (empty statement after an item; `let` in blocks; anonymous block ending a block; semicolon absorbed by a block statement).",
          "DESIGN.md section 7, C16"),
  "C17": ("exploration",
          "exhaustive enumeration of relational variants (layouts within a gap-deviation bound, renamings, all split points, repeated analysis) of every generated program; differential equality with no hand-written expected value",
-         "Every leaf template alone and inside each of 16 contexts after its declarations, statement sequences and (thorough) programs with one injected semantic fault are analysed under: the 7 uniform layouts and every layout deviating from the default in <= 1 gap (thorough <= 2 gaps for short statements) of the statements after the prelude with each of 6 separator flavours (all gaps for the first program); 4 fixed injective renamings of all user identifiers (ASCII, leading underscore, Unicode, keyword-prefixed) plus rotations, reversal and every adjacent swap of the identifiers among themselves; every split at a top-level statement boundary; and twice unchanged. Graph equality (PartialEq), symbol table equality up to the renaming, equal diagnostic kinds, prefix property for statements / symbols / diagnostics, and full equality including positions for the repeated run.",
+         "Every leaf template alone and inside each of 16 contexts after its declarations, every leaf behind one or two annotation lines, supported grid leaves, statement sequences (with annotation lines) and (thorough) programs with one injected semantic fault are analysed under: the 7 uniform layouts and every layout deviating from the default in <= 1 gap (thorough <= 2 gaps for short statements) of the statements after the prelude with each of 6 separator flavours (all gaps for the first program); 4 fixed injective renamings of all user identifiers (ASCII, leading underscore, Unicode, keyword-prefixed) plus rotations, reversal and every adjacent swap of the identifiers among themselves; every split at a top-level statement boundary (also directly after annotation lines); and twice unchanged. Graph equality (PartialEq), symbol table equality up to the renaming, equal diagnostic kinds (up to the renaming), prefix property for statements / symbols / diagnostics, and full equality including positions for the repeated run.",
          "Layouts beyond the deviation bound and renamings beyond the listed families are not covered. Programs not analysed (rejected or panicking) are skipped and counted.",
          "DESIGN.md section 7, C17"),
  "C18": ("exploration",
          "exhaustive enumeration of file-system arrangements x search lists x resolution modes x entry points x main programs against a reference resolver and the analysis of the textually inlined program",
-         "Real directory trees are built under /verif/.work: every assignment of the include files to subsets of 2 (thorough 3) search directories with directory-specific contents (so the directory picked is observable in the graph), file b in 5 flavours (own symbol, uses a's symbol, includes a, syntax fault, lexical fault), every search list that is a permutation of a subset of the directories, given explicitly (with QASM3_PATH set to the reverse order, which must be ignored), through QASM3_PATH only, or not at all, both entry points (string and file), and 16 main programs (include first / between declarations / used afterwards / name clash / two files in both orders / twice / below global scope in if and def / missing / with stdgates / missing in the middle / absolute path / nested / invalid escape / no path). Oracles: graph and symbols equal those of the inlined text, diagnostics equal as multiset plus exactly the predicted FileNotFound / IncludeNotInGlobalScope ones, the list tagged with each resolved canonical path holds the diagnostics of that file's own text, faults in the main text or in a file that is actually read gate analysis, no panic.",
+         "Real directory trees are built under /verif/.work: every assignment of the include files to subsets of 2 (thorough 3) search directories with directory-specific contents (so the directory picked is observable in the graph), file b in 5 flavours (own symbol, uses a's symbol, includes a, syntax fault, lexical fault), every search list that is a permutation of a subset of the directories, given explicitly (with QASM3_PATH set to the reverse order, which must be ignored), through QASM3_PATH only, or not at all, both entry points (string and file), and 18 main programs (include first / between declarations / used afterwards / name clash / two files in both orders / twice / below global scope in if and def / missing / with stdgates / missing in the middle / absolute path / nested / invalid escape / no path / annotation lines before an include in the middle and at the end). Oracles: graph and symbols equal those of the inlined text, diagnostics equal as multiset plus exactly the predicted FileNotFound / IncludeNotInGlobalScope ones, the list tagged with each resolved canonical path holds the diagnostics of that file's own text, faults in the main text or in a file that is actually read gate analysis, no panic.",
          "Include cycles are not generated (outside the statement). The environment variable is set and cleared around each configuration inside single-threaded worker processes.",
          "DESIGN.md section 7, C18"),
  "C19": ("model_checking",
          "explicit-state exploration of all operation histories on the real SymbolTable, lock-step comparison with a reference stack of maps",
-         "All histories of length <= 6 (thorough: <= 8, 4.8e7) over the nine operations of the statement, plus a second alphabet (lookup-or-bind, gate and hardware-qubit bindings) and all short histories from 11 systematic non-initial states, are executed on the real SymbolTable (cloned at branch points); after every operation the result and the full observation vector (look-ups, scope size, depth, every id ever issued, gate and hardware-qubit listings) are compared with the reference model. Reports reference states, transitions and traces executed; every trace runs on the implementation.",
+         "All histories of length <= 7 (thorough: <= 9, 4.8e8) over the nine operations of the statement, plus a second alphabet (lookup-or-bind, gate and hardware-qubit bindings) and all short histories from 11 systematic non-initial states, are executed on the real SymbolTable (cloned at branch points); after every operation the result and the full observation vector (look-ups, scope size, depth, every id ever issued, gate and hardware-qubit listings) are compared with the reference model. Reports reference states, transitions and traces executed; every trace runs on the implementation.",
          "Hook oq3_verif gives access to enter_scope and the scope depth. Histories beyond the bound are covered only as suffixes of deep/large start states.",
          "DESIGN.md section 7, C19"),
  "C20": ("exploration",
